@@ -21,12 +21,12 @@ func main() {
 	rep := kit.New("C09", "model_checking")
 	rep.Quiet()
 	log.SetOutput(io.Discard) // nsqd logs every file open through the standard logger
-	depth := 6
+	depth := 7
 	sizes := []int{0, 3, 30}
 	maxBytes := []int64{1, 16, 40}
 	syncEvery := []int64{1, 2, 1000}
 	if rep.Thorough() {
-		depth = 7
+		depth = 8
 		sizes = []int{0, 1, 5, 20, 70}
 		maxBytes = []int64{1, 10, 30}
 		syncEvery = []int64{1, 2, 3, 1000}
